@@ -32,6 +32,13 @@ func (ec *evalCtx) mapGet(m *MapV, k *Term) Value {
 }
 
 func (ec *evalCtx) mapLeafRead(m *MapV, t types.Type, prefix string, k *Term) Value {
+	if im, ok := t.Underlying().(*types.Map); ok {
+		inner := &MapV{Ref: Select(m.Val[prefix+"#ref"], k), Dom: Select(m.Val[prefix+"#dom"], k), Val: map[string]*Term{}, K: sortOfType(im.Key()), Elem: im.Elem()}
+		for _, l := range mapLeaves(im.Elem(), "") {
+			inner.Val[l.name] = Select(m.Val[prefix+"#val"+l.name], k)
+		}
+		return inner
+	}
 	if _, ok := t.Underlying().(*types.Interface); ok && !isErrorType(t) {
 		return &IfaceV{Tag: Select(m.Val[prefix+"#tag"], k), Id: Select(m.Val[prefix+"#id"], k), Payloads: map[string]Value{}}
 	}
@@ -68,6 +75,18 @@ func (ec *evalCtx) mapSet(m *MapV, k *Term, v Value) *MapV {
 	}
 	var set func(t types.Type, prefix string, v Value)
 	set = func(t types.Type, prefix string, v Value) {
+		if im, ok := t.Underlying().(*types.Map); ok {
+			inner, ok := v.(*MapV)
+			if !ok {
+				panic(unsupported("map value of kind %T stored as a map", v))
+			}
+			n.Val[prefix+"#ref"] = Store(n.Val[prefix+"#ref"], k, inner.Ref)
+			n.Val[prefix+"#dom"] = Store(n.Val[prefix+"#dom"], k, inner.Dom)
+			for _, l := range mapLeaves(im.Elem(), "") {
+				n.Val[prefix+"#val"+l.name] = Store(n.Val[prefix+"#val"+l.name], k, inner.Val[l.name])
+			}
+			return
+		}
 		if _, ok := t.Underlying().(*types.Interface); ok && !isErrorType(t) {
 			iv, ok := v.(*IfaceV)
 			if !ok {
